@@ -2,9 +2,10 @@ import NV.C02.Lemmas
 namespace NV.C02
 open NV.Gen.C02
 
-theorem okOut_ev {name : String} {c s : Int} (hn : exemptName name = false) (h0 : 0 ≤ c) (h1 : c ≤ s) :
+theorem okOut_ev {name : String} {c s : Int} (hn : (exemptName name || addReqName name) = false) (h0 : 0 ≤ c) (h1 : c ≤ s) :
     okOut (.ev name c s) = true := by
-  simp [okOut, hn, h0, h1]
+  rw [Bool.or_eq_false_iff] at hn
+  simp [okOut, hn.1, hn.2, h0, h1]
 
 theorem stepLoc_addLocal (l : Loc) (id : Id) (p : Bool) (s0 : Int) (h : LocInv l) :
     LocInv (stepLoc l (.addLocal id p s0)).1 ∧ ∀ o ∈ (stepLoc l (.addLocal id p s0)).2, okOut o = true := by
